@@ -1,5 +1,7 @@
 ---------------------------- MODULE Trace_Closest ----------------------------
-(* Trace validation for C20: each record is a command set, a word and what the real ParseArgs answered. *)
+(* Trace validation for C20: each record is a command set, a word and what the real ParseArgs answered.        *)
+(* The diagnosis is a function of the command set and the Hidden marks AS THEY ARE at the judged call: records *)
+(* with hasBefore come from a parser whose marks were different during two earlier failing parses.            *)
 EXTENDS Closest, Json
 
 VARIABLE l
